@@ -210,6 +210,21 @@ let run _id op a =
              let v = bfe_value a0 in
              if chk v && ZZ.equal (bfe_value a1) ZZ.zero && ZZ.equal (bfe_value a2) ZZ.zero
              then Printf.sprintf "%s 0 0" (s v) else "SPECDIFF root order " ^ s v)
+  | ("ntt_spot" | "intt_spot"), field :: "unit" :: n :: i0 :: cs when int_of_string n > 32768 ->
+      (* very large sizes, unit vector c * e_i0: the DFT has the closed form  out_k = c * w^(i0*k)  (O(log n) per
+         position), so sizes up to 2^24 are affordable in the quick tier *)
+      let width = if field = "b" then 1 else 3 in
+      let len = int_of_string n and i0 = int_of_string i0 in
+      let cs = Array.of_list (List.map (fun c -> md (z c)) cs) in
+      (match table_root len with
+       | None -> "PANIC"
+       | Some w ->
+           let at k c =
+             let cv = if c < Array.length cs then cs.(c) else ZZ.zero in
+             let e = ZZ.of_int ((i0 * k) mod len) in
+             if op = "ntt_spot" then md (ZZ.mul cv (ZZ.powm w e p))
+             else md (ZZ.mul (ZZ.mul cv (inv_mod (ZZ.of_int len))) (ZZ.powm (inv_mod w) e p)) in
+           show_spot (fun k -> List.init width (fun c -> at k c)) len)
   | ("ntt_spot" | "intt_spot"), field :: spec ->
       (* large sizes: only the specification, at the sampled positions *)
       let width = if field = "b" then 1 else 3 in
